@@ -11,6 +11,7 @@ import (
 	"log/slog"
 	"os"
 	"path/filepath"
+	"strings"
 	"sync"
 	"time"
 
@@ -111,6 +112,16 @@ func (m *mem) RepoGet(ctx context.Context, repoStr string) (Repo, error) {
 			return mr, nil
 		case <-ctx.Done():
 			return nil, ctx.Err()
+		}
+	}
+	if m.conf.Storage.RootDir != "" {
+		// with a backing directory the same names are refused as by the directory store,
+		// they map to paths inside the layout of another repository or cannot be a path at all
+		if len(repoStr) > 255 {
+			return nil, fmt.Errorf("repo %s is longer than 255 characters%.0w", repoStr, types.ErrRepoNotAllowed)
+		}
+		if stringsHasAny(strings.Split(repoStr, "/"), indexFile, layoutFile, blobsDir) {
+			return nil, fmt.Errorf("repo %s cannot contain %s, %s, or %s%.0w", repoStr, indexFile, layoutFile, blobsDir, types.ErrRepoNotAllowed)
 		}
 	}
 	mr := &memRepo{
